@@ -112,8 +112,10 @@ def guarded(f, profile=None):
         if profile is None:
             return observe_import(f())
         import biom.err
+        profile = dict(profile)
+        wf = profile.pop("_warnings", "ignore")
         with warnings.catch_warnings():
-            warnings.simplefilter("ignore")
+            warnings.simplefilter(wf)
             with biom.err.errstate(**profile):
                 return observe_import(f())
     except Exception as e:  # noqa
@@ -200,12 +202,34 @@ ID_INNER = ["a", "B7", "x y", "a  b", "x/y", "é1", "日本", "a.b", "s-#1", "q'
             "OTU ID", "taxonomy", "a#", "_", "0", "0.0", "e", "1_0", "١٢", "Infinity", "None", "😀"]
 
 
-def gen_ids(rng, n, prefix_pool):
+# characters that some text handling treats as markup; each must be able to stand FIRST, inside and LAST in a field
+SPECIALS = ['"', "'", "%", "\\", "{", "}", "[", "(", ",", ";", ":", "|", "=", "+", "-", "@", "!", "?", "*", "&", "^", "~",
+            "`", "$", "<", ">", "/", ".", "_", "0", "e", "#", "\ufeff", "\u200b", "\u00ad", '""', "'\"", "%s", "\\t", "\\n"]
+
+
+def decorate(rng, x, p=0.3, first_hash_ok=False):
+    """put a special character first and/or last"""
+    if rng.random() < p:
+        c = rng.choice(SPECIALS)
+        if first_hash_ok or not c.startswith("#"):
+            x = c + x
+    if rng.random() < p / 2:
+        x = x + rng.choice(SPECIALS)
+    return x
+
+
+def gen_ids(rng, n, prefix_pool, first_hash_ok=False):
     out, seen = [], set()
+    nasty = [x for x in core.NASTY_TEXTS if x == x.strip() and (first_hash_ok or not x.startswith("#"))]
+    if n >= 2 and rng.random() < 0.15:
+        # canonically equivalent spellings (NFC / NFD) are DISTINCT IDs
+        out = core.twin_ids(rng, 1)[:n]
+        seen = set(out)
     while len(out) < n:
-        x = rng.choice(ID_INNER)
+        x = rng.choice(ID_INNER) if rng.random() < 0.85 else rng.choice(nasty)
         if rng.random() < 0.5:
             x = rng.choice(prefix_pool) + x
+        x = decorate(rng, x, 0.25, first_hash_ok)
         if rng.random() < 0.15:
             x = x + rng.choice(["#", " z", ".1", "\x1cq"])
         if x in seen or x.startswith("#"):
@@ -228,11 +252,12 @@ def gen_omd(rng, n, kind):
     for i in range(n):
         e = {}
         if kind == "tax":
-            e["taxonomy"] = [rng.choice(TAX_ELEMS) for _ in range(rng.randint(1, 4))]
+            e["taxonomy"] = [decorate(rng, rng.choice(TAX_ELEMS), 0.2, True).replace(";", ",")
+                             for _ in range(rng.randint(1, 4))]
             if with_conf:
                 e["confidence"] = rng.random()
         elif kind == "text":
-            e["note"] = rng.choice(TEXTS) if rng.random() < 0.8 else "v%d" % i
+            e["note"] = decorate(rng, rng.choice(TEXTS), 0.25, True) if rng.random() < 0.8 else "v%d" % i
             if with_conf:
                 e["taxonomy"] = ["k__A"]
         elif kind == "numeric-tax":
@@ -248,7 +273,12 @@ def gen_spec(rng, max_n, max_m, shape=None, omd_kind=None):
     classes = rng.choice([("count",), ("smallcount",), ("dyadic", "count"), ("neg", "dyadic"), ("big", "tiny"),
                           ("bits",), tuple(core.VALUE_CLASSES), ("tiny", "count"), ("big", "neg")])
     obs = gen_ids(rng, n, ["O", "otu ", "é", "GG_"])
-    samp = gen_ids(rng, m, ["S", "smp.", "日", "PC."])
+    samp = gen_ids(rng, m, ["S", "smp.", "日", "PC."], first_hash_ok=True)
+    if rng.random() < 0.1:
+        # the same text on both axes
+        k = rng.randrange(min(n, m)) if min(n, m) > 0 else 0
+        if obs[k] not in samp:
+            samp[k] = obs[k]
     if omd_kind is None:
         omd_kind = rng.choice(["none", "tax", "tax", "text"])
     return {"obs": obs, "samp": samp, "rows": core.gen_grid(rng, n, m, None, classes),
@@ -408,7 +438,8 @@ def pick_mdmode(rng, t):
         fm, pr = rng.choice([("naive", "naive"), ("str", "naive")])
     else:
         return None
-    value = k if rng.random() < 0.6 else rng.choice(["Consensus Lineage", "tax", "é md", "12", "x#y"])
+    value = k if rng.random() < 0.6 else decorate(rng, rng.choice(["Consensus Lineage", "tax", "é md", "12", "x#y"]),
+                                                   0.4, True)
     return {"key": k, "value": value, "formatter": fm, "processor": pr}
 
 
@@ -519,9 +550,10 @@ def check_case(ctx, lib, case, tags=()):
             try:
                 args = ["-i", src_fp, "-o", out, "--to-tsv"]
                 if mdmode:
-                    args += ["--header-key", mdmode["key"], "--tsv-metadata-formatter", fm_name]
+                    # `--opt=value`: a value may begin with '-'
+                    args += ["--header-key=" + mdmode["key"], "--tsv-metadata-formatter", fm_name]
                     if mdmode["value"] != mdmode["key"]:
-                        args += ["--output-metadata-id", mdmode["value"]]
+                        args += ["--output-metadata-id=" + mdmode["value"]]
                 args += extra_cli_args(cli_extra, e["samp"], "to-tsv")
                 lib.convert(args)
                 with open(out, encoding="utf-8", newline="") as f:
@@ -556,15 +588,23 @@ def check_case(ctx, lib, case, tags=()):
             ident_ok, "naive")
         # rarely used arguments: md_parse instead of the processing function; ID -> metadata mappings
         if case.get("rare", True):
+            # the SAME list object as in the "lines" call, and one keyword dict shared by two calls
+            shared_kw = {"md_parse": pr}
             add("lines:md_parse", ls,
-                guarded(lambda: lib.Table.from_tsv(list(ls), None, None, lambda x: x, md_parse=pr), profile),
+                guarded(lambda: lib.Table.from_tsv(given, None, None, lambda x: x, **shared_kw), profile),
                 True, pr_name)
+            add("lines:md_parse-again", ls,
+                guarded(lambda: lib.Table.from_tsv(given, None, None, lambda x: x, **shared_kw), profile),
+                True, pr_name)
+            if given != ls or shared_kw != {"md_parse": pr}:
+                mapping_failures.append("from_tsv changed an argument object of the caller")
             smap = AnyKey({i: {"where": "site %s" % i, "n": j} for j, i in enumerate(e["samp"])})
             omap = AnyKey({i: {"mapped": "obs %s" % i} for i in e["obs"]})
             kept = {}
 
             def with_maps():
-                kept["t"] = lib.Table.from_tsv(list(ls), omap, smap, pr)
+                lib.Table.from_tsv(given, omap, smap, pr)           # the same mapping objects twice
+                kept["t"] = lib.Table.from_tsv(given, omap, smap, pr)
                 return kept["t"]
             r_maps = guarded(with_maps, profile)
             add("lines:mappings", ls, dict(r_maps, omd=None) if "error" not in r_maps else r_maps, False, pr_name,
@@ -810,7 +850,7 @@ def gen_classic(rng):
     lines = []
     for _ in range(rng.choice([0, 0, 1, 2])):
         lines.append(rng.choice(["# Constructed from biom file", "#comment\twith\ttabs", "#", "# QIIME v1.9", "", "  "]))
-    samp = ["S%d" % j for j in range(m)]
+    samp = [decorate(rng, "S%d" % j, 0.15, True) for j in range(m)]
     md = rng.choice([None, None, "text", "numeric", "mixed", "blankish"])
     hdr_first = rng.choice(["#OTU ID", "#OTU ID", "OTU", "", "# x"])
     hdr = [hdr_first] + samp + (["taxonomy"] if md and rng.random() < 0.9 else [])
@@ -823,9 +863,10 @@ def gen_classic(rng):
         for j in range(m):
             vals.append(rng.choice(["0", "1", "2.5", "0.0", "1e-3", "-4", " 7", "7 ", "x", "", "nan", "1_0", "3"]
                                    if rng.random() < 0.25 else ["0", "1", "2", "10", "0.0"]))
-        row = ["%s%d" % (rng.choice(["O", "#O", " O", "o "]) if rng.random() < 0.2 else "O", i)] + vals
+        row = [decorate(rng, "%s%d" % (rng.choice(["O", "#O", " O", "o "]) if rng.random() < 0.2 else "O", i), 0.2, True)] \
+            + vals
         if md == "text":
-            row.append(rng.choice(["k__A; p__b", "x", "a b ", " lead"]))
+            row.append(decorate(rng, rng.choice(["k__A; p__b", "x", "a b ", " lead"]), 0.3, True))
         elif md == "numeric":
             row.append(rng.choice(["1", "2.5", "nan", "1e3"]))
         elif md == "mixed":
@@ -836,6 +877,52 @@ def gen_classic(rng):
         if rng.random() < 0.15:
             lines.append(rng.choice(["", "#c", "   "]))
     return [l + eol for l in lines]
+
+
+# ----------------------------------------------------------------------------- systematic: character x position x role
+
+
+def position_cases():
+    """every special character first / inside / last in every kind of field the text has: first and later
+    observation ID, first / middle / LAST sample ID, metadata text (list element and plain text), header value"""
+    roles = ["obs0", "obs1", "samp0", "samp_mid", "samp_last", "md_elem", "md_text", "header_value"]
+    k = 0
+    for c in SPECIALS:
+        for pos in ("first", "inside", "last"):
+            word = {"first": c + "w", "inside": "w" + c + "w", "last": "w" + c}[pos]
+            role = roles[k % len(roles)]
+            second = roles[(k // len(roles) + k + 3) % len(roles)]
+            k += 1
+            for r in {role, second}:
+                obs, samp = ["O1", "O2"], ["S1", "S2", "S3"]
+                omd, mdmode = None, None
+                if r == "obs0":
+                    obs[0] = word
+                elif r == "obs1":
+                    obs[1] = word
+                elif r == "samp0":
+                    samp[0] = word
+                elif r == "samp_mid":
+                    samp[1] = word
+                elif r == "samp_last":
+                    samp[2] = word
+                elif r == "md_elem":
+                    if ";" in word:
+                        continue
+                    omd = [{"taxonomy": [word, "p__x"]}, {"taxonomy": ["k__y", word]}]
+                    mdmode = {"key": "taxonomy", "value": "taxonomy", "formatter": "sc_separated", "processor": "taxonomy"}
+                elif r == "md_text":
+                    omd = [{"note": word}, {"note": "plain"}]
+                    mdmode = {"key": "note", "value": "note", "formatter": "naive", "processor": "naive"}
+                else:
+                    omd = [{"taxonomy": ["k__A"]}, {"taxonomy": ["k__B", "p__c"]}]
+                    mdmode = {"key": "taxonomy", "value": word, "formatter": "sc_separated", "processor": "sc_separated"}
+                if obs[0].startswith("#") or obs[1].startswith("#"):
+                    continue            # outside the guard: a comment line
+                yield {"spec": {"obs": obs, "samp": samp, "rows": [[1.0, 0.0, 2.5], [0.0, 3.0, 4.0]], "omd": omd,
+                                "smd": None, "type": None},
+                       "route": "dense", "history": "none", "hseed": k, "mdmode": mdmode, "clifmt": "json",
+                       "cli": k % 4 == 0, "rare": False}, ("position", "char=%r" % c, "pos=" + pos, "role=" + r)
 
 
 # ----------------------------------------------------------------------------- fixed corpus
@@ -886,7 +973,7 @@ def fixed_corpus():
 
 
 COLNAMES = ["#OTU ID", "Feature ID", "#ID", "taxon é", "OTU", "#"]
-PROFILES = [{"empty": "raise"}, {"empty": "warn"}, {"empty": "call"}, {"empty": "print"}, {"all": "raise"},
+PROFILES = [{"_warnings": "error"}, {"_warnings": "always"}, {"empty": "raise"}, {"empty": "warn"}, {"empty": "call"}, {"empty": "print"}, {"all": "raise"},
             {"obsdup": "ignore", "empty": "raise"}]
 
 
@@ -942,11 +1029,16 @@ def run(ctx):
         warm_up(lib)
         for case, tags in fixed_corpus():
             check_case(ctx, lib, case, tags)
+        for k, (case, tags) in enumerate(position_cases()):
+            if ctx.mine(k):
+                check_case(ctx, lib, case, tags)
+                ctx.count("position-case")
         rng = ctx.rng
         # size thresholds: many IDs on one axis, and one text of more than 64 KiB
         for k, (axis, n_axis, other) in enumerate((("sample", None, None), ("observation", None, None),
                                                    ("sample", 64, 1), ("observation", 65, 1),
-                                                   ("sample", 100, 100))):
+                                                   ("sample", 100, 100), ("sample", 520, 1),
+                                                   ("observation", 515, 2))):
             if not ctx.mine(k):
                 continue
             wspec = core.wide_spec(rng, n_axis=n_axis, other=other, axis=axis,
@@ -956,7 +1048,7 @@ def run(ctx):
             check_case(ctx, lib, {"spec": wspec, "route": rng.choice(core.ROUTES),
                                   "history": rng.choice(["none", "sort_samples", "sort_obs", "export_then_transform"]),
                                   "hseed": rng.randint(0, 10 ** 9), "mdmode": "auto", "clifmt": "json",
-                                  "cli": k in (0, 1), "poke": True, "rare": k < 4}, ("wide",))
+                                  "cli": k in (0, 1), "poke": True, "rare": k < 4 or k > 4}, ("wide",))
             ctx.count("wide-case")
         # IDs ending or starting with a blank are outside the guard: the model must predict what happens
         for obs, samp in ((["O1 ", "O2"], ["S1", "S2"]), (["O1", "O2"], ["S1", "S2 "]), (["O1", "O2"], ["S1", "S2\x1c"]),
